@@ -398,8 +398,7 @@ def evalFunction (f : Func) (args : Value α) (st : σ) : Res (Value α × σ) :
   | .Clamp =>
     match args.numberTriple with
     | .ok (x, lo, hi) =>
-      if o.lt hi lo then .error .invalidData
-      else if o.isNaN lo || o.isNaN hi then .error .panic   -- `f32::clamp` asserts `min <= max`
+      if o.lt hi lo || o.isNaN lo || o.isNaN hi then .error .invalidData
       else
         -- f32::clamp: `if self < min { min } else if self > max { max } else { self }`
         ok1 (if o.lt x lo then lo else if o.lt hi x then hi else x)
